@@ -44,7 +44,7 @@ def current_vthread():
 
 class VThread:
     __slots__ = ("name", "fn", "go", "done", "result", "exc", "blocked", "lines", "budget", "thread", "il",
-                 "crash_at", "where", "wbudget", "prev_w", "wseen")
+                 "crash_at", "where", "wbudget", "prev_w", "wseen", "at_write", "hold", "nb", "pending")
 
     def __init__(self, il, name, fn):
         self.il = il
@@ -61,8 +61,12 @@ class VThread:
         self.where = ""
         self.thread = None
         self.wbudget = 0
-        self.prev_w = False
+        self.prev_w = None  # frame whose last traced line was a counted store line
         self.wseen = {}
+        self.at_write = False
+        self.hold = 0
+        self.nb = 0  # distinct store lines executed so far (park mode)
+        self.pending = {}  # frame -> index of the boundary "after the store" that frame still owes (park mode)
 
 
 class SimLock:
@@ -107,18 +111,27 @@ class Interleaver:
     WAIT = 100.0  # real seconds before a parked controller declares a harness hang
 
     WQ = (1, 1, 2, 3, 5, 8, 15, 40, 120, 400)  # write-boundary budgets: park one thread at a store, let another run far
+    HQ = (2, 5, 10, 25, 60, 150)  # scheduler steps a thread parked at a store boundary is held back (others overtake it)
 
     def __init__(self, ch, trace_root: str, qlo: int, qhi: int, log: list, stats: dict, write_lines=None, whi: int = 0,
-                 qlog: bool = False):
+                 qlog: bool = False, park_at: int | None = None, shared: dict | None = None, global_lines: dict | None = None):
         self.ch = ch
         self.root = trace_root
         self.qlo, self.qhi = qlo, qhi
         # write-directed pre-emption: {filename: lines that store into shared state}; a quantum then also ends at the
         # `wbudget`-th boundary of such a line (just before it executes, or just after it did)
-        self.wl = write_lines if whi > 0 else None
+        self.wl = write_lines if (whi > 0 or park_at is not None) else None
         self.whi = whi
         # log-uniform quanta (1, 2, 4, ... <= qhi): fine-grained and long stretches in the same run
         self.qlog = qlog
+        # "delay one task at one store": the first thread that reaches its `park_at`-th store boundary (2j = just before the j-th
+        # distinct store line it executes, 2j + 1 = just after) is parked until no other thread can run
+        self.park_at = park_at
+        self.park_used = False
+        # park candidates restricted to stores whose `self` is an instance held by >= 2 tasks (id -> object), or that go into
+        # a module-level object
+        self.shared = shared
+        self.global_lines = global_lines or {}
         self.qexp = max(1, int(qhi).bit_length())
         self.log = log
         self.stats = stats
@@ -133,9 +146,25 @@ class Interleaver:
         return None
 
     def _line_trace(self, frame, event, arg):
-        if event != "line":
-            return self._line_trace
         vt = _tls.vt
+        if event != "line":
+            if event == "return" and self.park_at is not None and vt.pending:
+                idx = vt.pending.pop(frame, None)
+                if idx is not None and not self.park_used and idx == self.park_at and not _holds_real_lock():
+                    self._park(vt, frame, "(return)")
+                return self._line_trace
+            if event == "return" and vt.prev_w is frame:
+                # the store was the last line of the function: the boundary "after the store" is the return
+                vt.prev_w = None
+                if self.park_at is not None:
+                    return self._line_trace
+                vt.wbudget -= 1
+                if vt.wbudget <= 0 and not _holds_real_lock():
+                    vt.at_write = True
+                    self.stats["write_preemptions"] = self.stats.get("write_preemptions", 0) + 1
+                    vt.where = f"{frame.f_code.co_filename[len(self.root):]}:{frame.f_lineno}(return)"
+                    self._yield(vt, "w")
+            return self._line_trace
         vt.lines += 1
         if vt.crash_at is not None and vt.lines >= vt.crash_at:
             vt.crash_at = None
@@ -145,19 +174,44 @@ class Interleaver:
         if self.wl is not None:
             ws = self.wl.get(frame.f_code.co_filename)
             is_w = ws is not None and frame.f_lineno in ws
-            if is_w:
+            if self.park_at is not None:
+                if vt.pending:
+                    idx = vt.pending.pop(frame, None)  # boundary just after a store made by this frame
+                    if idx is not None and not self.park_used and idx == self.park_at and not _holds_real_lock():
+                        self._park(vt, frame, "")
+                if is_w and self.shared is not None:
+                    gl = self.global_lines.get(frame.f_code.co_filename)
+                    if not (gl is not None and frame.f_lineno in gl):
+                        me = frame.f_locals.get("self")
+                        is_w = me is not None and id(me) in self.shared
+                if is_w:
+                    key = (frame.f_code, frame.f_lineno)
+                    if key not in vt.wseen:
+                        vt.wseen[key] = 1
+                        vt.pending[frame] = 2 * vt.nb + 1
+                        vt.nb += 1
+                        if not self.park_used and 2 * (vt.nb - 1) == self.park_at and not _holds_real_lock():
+                            self._park(vt, frame, "")
+            elif is_w:
                 # a store line inside a hot loop is a boundary at its 1st, 2nd, 4th, 8th ... execution by this task only, so
                 # that once-per-task stores (cache fills, lazy initialisation) are not drowned by per-slice stores
                 key = (frame.f_code, frame.f_lineno)
                 c = vt.wseen.get(key, 0) + 1
                 vt.wseen[key] = c
                 is_w = c & (c - 1) == 0
-            if is_w or vt.prev_w:
+            # boundary "after the store": the next line event of the SAME frame (calls made while the right-hand side is
+            # evaluated produce line events of other frames before the store has happened)
+            after = self.park_at is None and vt.prev_w is frame
+            if after:
+                vt.prev_w = None
+            if self.park_at is None and (is_w or after):
                 vt.wbudget -= 1
                 if vt.wbudget <= 0:
                     vt.budget = 0
+                    vt.at_write = True
                     self.stats["write_preemptions"] = self.stats.get("write_preemptions", 0) + 1
-            vt.prev_w = is_w
+            if is_w and self.park_at is None:
+                vt.prev_w = frame
         if vt.budget <= 0:
             if _holds_real_lock():
                 # never park a thread that owns a real (non-simulated) lock another virtual thread may need:
@@ -167,6 +221,14 @@ class Interleaver:
             vt.where = f"{frame.f_code.co_filename[len(self.root):]}:{frame.f_lineno}"
             self._yield(vt, "q")
         return self._line_trace
+
+    def _park(self, vt, frame, suffix):
+        self.park_used = True
+        vt.hold = 1 << 30  # until no other thread is runnable (step() clears it)
+        vt.where = f"{frame.f_code.co_filename[len(self.root):]}:{frame.f_lineno}{suffix}"
+        self.stats["parks"] = self.stats.get("parks", 0) + 1
+        self.log.append(("park", vt.name, vt.lines, vt.where))
+        self._yield(vt, "p")
 
     def _yield(self, vt, why):
         vt.go.clear()
@@ -199,7 +261,9 @@ class Interleaver:
         return vt
 
     def runnable(self, vts):
-        return [vt for vt in vts if not vt.done and not (vt.blocked is not None and vt.blocked._held)]
+        r = [vt for vt in vts if not vt.done and not (vt.blocked is not None and vt.blocked._held)]
+        free = [vt for vt in r if vt.hold <= 0]
+        return free or r
 
     def step(self, vt: VThread):
         """give `vt` the baton for one quantum"""
@@ -208,12 +272,22 @@ class Interleaver:
         else:
             q = self.ch.range(self.qlo, self.qhi, "quantum")
         vt.budget = q
+        vt.at_write = False
+        vt.hold = 0
         if self.wl is not None:
-            vt.wbudget = self.WQ[self.ch.int(min(self.whi, len(self.WQ)), "wquantum")]
+            if self.park_at is None:
+                vt.wbudget = self.WQ[self.ch.int(min(self.whi, len(self.WQ)), "wquantum")]
+            for other in self.threads:
+                if other is not vt and other.hold > 0:
+                    other.hold -= 1
         self._ctrl.clear()
         vt.go.set()
         if not self._ctrl.wait(self.WAIT):
             raise HarnessError(f"hang: virtual thread {vt.name} did not yield within {self.WAIT}s at {vt.where}")
+        if self.wl is not None and self.park_at is None and vt.at_write and not vt.done and self.ch.bool(0.3, "hold"):
+            # parked right before / after a store into shared state: keep it there while the other threads overtake it
+            vt.hold = self.HQ[self.ch.int(len(self.HQ), "hold-steps")]
+            self.stats["holds"] = self.stats.get("holds", 0) + 1
         self.stats["switches"] = self.stats.get("switches", 0) + 1
         self.log.append(("sw", vt.name, vt.lines, "done" if vt.done else vt.where))
 
